@@ -183,6 +183,7 @@ func main() {
 	workersF := fs.Int("workers", 0, "worker processes")
 	fs.BoolVar(&verbose, "v", false, "verbose")
 	noEvidence := fs.Bool("no-evidence", false, "do not write the evidence file")
+	selftest := fs.Int("selftest", 0, "determinism self-test: execute the first N runs in 6 processes (GOMAXPROCS 1, 4, 16, twice each) and compare everything they produce")
 	fs.Parse(os.Args[2:])
 	if *tier == "" {
 		*tier = os.Getenv("VERIF_TIER")
@@ -252,6 +253,11 @@ func main() {
 		raceRuns = *raceRunsF
 	}
 	sup := &supervisor{b: b, id: id, cfg: cfg, tier: *tier, seed: seed, nw: nw}
+	if *selftest > 0 {
+		code := sup.selfTest(*selftest, needRace)
+		cleanup()
+		os.Exit(code)
+	}
 	total := sup.batch(false, runs)
 	if raceRuns > 0 {
 		r2 := sup.batch(true, raceRuns)
@@ -515,7 +521,76 @@ loop:
 	return wr
 }
 
+// selfTest: the same runs in several processes at several GOMAXPROCS values
+// must produce the same cases, signatures, verdict classes and counters.
+func (s *supervisor) selfTest(n int, race bool) int {
+	var wg sync.WaitGroup
+	type res struct {
+		trace string
+		gmp   string
+		race  bool
+	}
+	var out []res
+	var mu sync.Mutex
+	modes := []bool{false}
+	if race {
+		modes = append(modes, true)
+	}
+	for _, rc := range modes {
+		for k := 0; k < 6; k++ {
+			k, rc := k, rc
+			wg.Add(1)
+			go func() {
+				defer wg.Done()
+				tp := filepath.Join(work, fmt.Sprintf("trace-%v-%d", rc, k))
+				job := Job{Property: s.id, Mode: "batch", Tier: s.tier, Seed: s.seed, Start: 0, Stride: 1, Count: n, Race: rc, Extra: map[string]string{"trace": tp, "gomaxprocs": []string{"1", "4", "16"}[k%3]}}
+				wr := s.spawn(job, 2*time.Hour)
+				b, _ := os.ReadFile(tp)
+				if wr.died || wr.stall {
+					b = append(b, []byte(fmt.Sprintf("WORKER DIED at run %d\n", wr.lastB))...)
+				}
+				mu.Lock()
+				out = append(out, res{string(b), job.Extra["gomaxprocs"], rc})
+				mu.Unlock()
+			}()
+		}
+	}
+	wg.Wait()
+	bad := 0
+	for _, rc := range modes {
+		var ref *res
+		for i := range out {
+			if out[i].race != rc {
+				continue
+			}
+			if ref == nil {
+				ref = &out[i]
+				continue
+			}
+			if out[i].trace != ref.trace {
+				bad++
+				a, b := strings.Split(ref.trace, "\n"), strings.Split(out[i].trace, "\n")
+				for k := 0; k < len(a) && k < len(b); k++ {
+					if a[k] != b[k] {
+						fmt.Printf("SELFTEST DIVERGENCE property=%s race=%v GOMAXPROCS %s vs %s:\n  %s\n  %s\n", s.id, rc, ref.gmp, out[i].gmp, a[k], b[k])
+						break
+					}
+				}
+			}
+		}
+	}
+	if bad > 0 {
+		fmt.Printf("SELFTEST FAILED property=%s: %d of %d processes diverged\n", s.id, bad, len(out))
+		return 2
+	}
+	fmt.Printf("SELFTEST OK property=%s: %d runs x %d processes (GOMAXPROCS 1, 4, 16; plain%s) produced identical cases, signatures, verdicts and counters\n", s.id, n, len(out), map[bool]string{true: " and race", false: ""}[race])
+	return 0
+}
+
 func gomaxprocs(job Job) string {
+	if v := job.Extra["gomaxprocs"]; v != "" {
+		return v
+	}
 	// vary the number of OS threads under the scheduler: a determinism check in itself
 	switch job.Start % 3 {
 	case 0:
